@@ -254,15 +254,39 @@ def reply_packets(chk, rng, n):
             eof = rng.random() < 0.4
             b = packets.make_ok(caps, ServerStatus(st), eof=eof, affected_rows=a, last_insert_id=l, warnings=w, flags=fl)
             lines.append("rep ok %d %d %d %d %d %d %d" % (p41, trans, eof, a, l, st | fl, w))
+            if p41:
+                try:
+                    from lib import parse_ok, Bad
+                    d = parse_ok(b)
+                    if (d["affected"], d["last_id"], d["status"], d["warnings"]) != (a, l, st | fl, w) or b[:1] != (b"\xfe" if eof else b"\x00"):
+                        chk.fail("OK packet does not decode to the fields that were sent", dict(line=lines[-1]), d)
+                except Bad as e:
+                    chk.fail("OK packet not decodable by a standard client", dict(line=lines[-1], packet=hexs(b)), str(e))
         elif k == "eof":
             st, w, fl = rng.randrange(0, 1 << 15), rng.randrange(0, 1 << 16), rng.choice([0, 0x40, 0x80])
             b = packets.make_eof(caps, ServerStatus(st), warnings=w, flags=fl)
             lines.append("rep eof %d %d %d" % (p41, w, st | fl))
+            if p41:
+                try:
+                    from lib import parse_eof, Bad
+                    d = parse_eof(b)
+                    if (d["warnings"], d["status"]) != (w, st | fl):
+                        chk.fail("EOF packet does not decode to the fields that were sent", dict(line=lines[-1]), d)
+                except Bad as e:
+                    chk.fail("EOF packet not decodable by a standard client", dict(line=lines[-1], packet=hexs(b)), str(e))
         elif k == "err":
             code = rng.choice(codes)
             msg = "".join(rng.choice("abc é☃'\\%") for _ in range(rng.randrange(0, 12)))
             b = packets.make_error(caps, CharacterSet.utf8mb4, msg=msg, code=code)
             lines.append("rep err %d %d %s %s" % (p41, int(code), hexs(get_sqlstate(code)), hexs(msg.encode())))
+            if p41:
+                try:
+                    from lib import parse_err, Bad
+                    c2, st2, m2 = parse_err(b)
+                    if (c2, m2) != (int(code), msg.encode()) or len(st2) != 5:
+                        chk.fail("ERR packet does not decode to the code / message that were sent", dict(line=lines[-1]), (c2, st2, m2))
+                except Bad as e:
+                    chk.fail("ERR packet not decodable by a standard client", dict(line=lines[-1], packet=hexs(b)), str(e))
         else:
             def nm():
                 return "".join(rng.choice("abcxyz_é☃ ") for _ in range(rng.choice([0, 1, 3, 8, 250, 251, 300]) if rng.random() < 0.2 else rng.randrange(0, 9)))
